@@ -163,15 +163,18 @@ fn main() {
             let len: u64 = args[7].parse().unwrap();
             let probe_every = menuv["probe_every"].as_u64().unwrap_or(0);
             let auth_probes = menuv["auth_probes"].as_bool().unwrap_or(false);
-            let prefix: Vec<Value> = menuv["prefix"].as_array().cloned().unwrap_or_default();
+            let prefix0: Vec<Value> = menuv["prefix"].as_array().cloned().unwrap_or_default();
+            // "prefixes": several alternative set-up sequences, used round robin
+            let prefixes: Vec<Vec<Value>> = menuv["prefixes"].as_array().map(|a| a.iter().map(|p| p.as_array().cloned().unwrap_or_default()).collect()).unwrap_or_default();
             let mut rng = Rng::new(seed);
             let (mut events, mut oks, mut probes_n) = (0u64, 0u64, 0u64);
             let mut kinds: std::collections::BTreeMap<String, (u64, u64)> = Default::default();
-            for _ in 0..runs {
+            for run_no in 0..runs {
+                let prefix: &Vec<Value> = if prefixes.is_empty() { &prefix0 } else { &prefixes[(run_no as usize) % prefixes.len()] };
                 let rcfg = vary(&cfg, &menuv, &mut rng);
                 let mut c = if menuv["vary"].is_object() { setup(&rcfg) } else { base.clone() };
                 tr.write(&reset, &okk(), &c, &rcfg, true);
-                for tx in &prefix {
+                for tx in prefix {
                     let (o, changed) = run_event(&mut c, tx);
                     tr.write(tx, &o, &c, &rcfg, changed);
                     events += 1;
